@@ -9,12 +9,20 @@ vars == <<tid, l, now, slo, shi, br, taint, nres, unw, bad>>
 \* br: borrow blocks in progress: [a, p, sh, amt, ph, t, claim]   ph: "acq" | "hold" | "rel" | "relx" (released by helpers)
 \* taint[p]: an acquisition / release on p was interrupted by a signal (known finding territory)
 Init == /\ tid \in 1..N /\ l = 1 /\ bad = "" /\ now = 0 /\ nres = 0 /\ unw = {}
-        /\ slo = [p \in Ps |-> 0] /\ shi = [p \in Ps |-> 0] /\ br = <<>> /\ taint = [p \in Ps |-> FALSE]
+        /\ slo = [p \in Ps |-> Zero] /\ shi = [p \in Ps |-> Zero] /\ br = <<>> /\ taint = [p \in Ps |-> FALSE]
 Fail(c) == bad' = c /\ UNCHANGED <<slo, shi, br, taint>>
 Get(s, i) == IF i <= Len(s) THEN s[i] ELSE 0
+\* levels and amounts are vectors <<a, b>> over the resource types of a supply (b = 0 throughout for supplies with one
+\* type): arithmetic is elementwise, "certainly enough" means enough of EVERY type, "short" means short of SOME type
+VGe(x, y) == x[1] >= y[1] /\ x[2] >= y[2]
+VLtSome(x, y) == x[1] < y[1] \/ x[2] < y[2]
+VGtSome(x, y) == x[1] > y[1] \/ x[2] > y[2]
+Amt(e) == <<F(e, "amt", 0), F(e, "amtb", 0)>>
+Lv(e) == <<e.v, F(e, "vb", 0)>>
+GetV(e, p) == <<Get(e.levels, p), IF "levelsb" \in DOMAIN e THEN Get(e.levelsb, p) ELSE 0>>
 RECURSIVE SumAmt(_, _, _)
-SumAmt(s, p, phs) == IF s = <<>> THEN 0
-                     ELSE (IF Head(s).p = p /\ Head(s).ph \in phs THEN Head(s).amt ELSE 0) + SumAmt(Tail(s), p, phs)
+SumAmt(s, p, phs) == IF s = <<>> THEN Zero
+                     ELSE VAdd(IF Head(s).p = p /\ Head(s).ph \in phs THEN Head(s).amt ELSE Zero, SumAmt(Tail(s), p, phs))
 Out(p) == SumAmt(br, p, {"acq", "hold", "rel", "relx"})
 Held(p) == SumAmt(br, p, {"hold"})
 \* a holder may silently have begun to give back (an exception / signal is unwinding it): only the amounts held
@@ -44,14 +52,14 @@ Step ==
          br0 == IF t > now THEN SelectSeq(br, LAMBDA y : y.ph # "relx") ELSE br IN
      /\ now' = IF e.e \in {"init", "fin"} THEN now ELSE t
      /\ CASE e.e = "init" ->
-               /\ slo' = [p \in Ps |-> Get(e.res, p)] /\ shi' = [p \in Ps |-> Get(e.res, p)] /\ UNCHANGED <<br, taint, bad>>
+               /\ slo' = [p \in Ps |-> <<Get(e.res, p), IF "resb" \in DOMAIN e THEN Get(e.resb, p) ELSE 0>>] /\ shi' = slo' /\ UNCHANGED <<br, taint, bad>>
           [] e.e = "b" /\ op \in {"borrow", "claim"} ->
                LET p == e.p IN
                \* a claim is decided on entry: it must succeed if the amount is certainly available
-               /\ br' = Append(br0, [a |-> a, p |-> p, sh |-> e.sh, amt |-> e.amt, ph |-> "acq", t |-> t,
+               /\ br' = Append(br0, [a |-> a, p |-> p, sh |-> e.sh, amt |-> Amt(e), ph |-> "acq", t |-> t,
                                      claim |-> op = "claim",
-                                     sure |-> p \in Sup /\ slo[p] >= Out(p) + e.amt,
-                                     never |-> p \in Sup /\ shi[p] < HeldBy(a, p) + e.amt])
+                                     sure |-> p \in Sup /\ VGe(slo[p], VAdd(Out(p), Amt(e))),
+                                     never |-> p \in Sup /\ VLtSome(shi[p], VAdd(HeldBy(a, p), Amt(e)))])
                /\ UNCHANGED <<slo, shi, taint, bad>>
           [] e.e = "r" /\ op \in {"borrow", "claim"} ->
                IF ~Has(a, e.p, "acq") THEN Fail("C12.entered_without_request")
@@ -59,8 +67,8 @@ Step ==
                     IF br[i].claim /\ t # br[i].t THEN Fail("C12.claim_waited")
                     ELSE IF br[i].claim /\ br[i].never THEN Fail("C12.claim_verdict")
                     \* nested borrowing can never exceed the share it borrows from
-                    ELSE IF e.p \notin Sup /\ SumAmt(br, e.p, {"hold"}) + br[i].amt >
-                              (LET own == CHOOSE j \in 1..Len(br) : br[j].sh = e.p IN br[own].amt)
+                    ELSE IF e.p \notin Sup /\ VGtSome(VAdd(SumAmt(br, e.p, {"hold"}), br[i].amt),
+                                                    LET own == CHOOSE j \in 1..Len(br) : br[j].sh = e.p IN br[own].amt)
                          THEN Fail("C12.nested_exceeds_share")
                     ELSE br' = SetPh(i, "hold") /\ UNCHANGED <<slo, shi, taint, bad>>
           [] e.e = "x" /\ op \in {"borrow", "claim"} ->
@@ -94,25 +102,30 @@ Step ==
                     ELSE br' = Del(i) /\ taint' = TaintIf(e.id, IsSignal(e.exc)) /\ UNCHANGED <<slo, shi, bad>>
           [] e.e = "b" /\ op \in {"inc", "dec", "rset"} /\ e.p \in Sup ->
                LET p == e.p IN
-               /\ slo' = [slo EXCEPT ![p] = IF op = "inc" THEN @ + e.amt ELSE IF op = "dec" THEN @ - e.amt
-                                            ELSE e.amt + Held(p)]
-               /\ shi' = [shi EXCEPT ![p] = IF op = "inc" THEN @ + e.amt ELSE IF op = "dec" THEN @ - e.amt
-                                            ELSE e.amt + Out(p)]
+               \* set() replaces only the types it names (mask 1: a, 2: b, 3: both)
+               LET m == F(e, "mask", 3)
+                   Sel(new, old) == <<IF m \in {1, 3} THEN new[1] ELSE old[1], IF m \in {2, 3} THEN new[2] ELSE old[2]>> IN
+               /\ slo' = [slo EXCEPT ![p] = IF op = "inc" THEN VAdd(@, Amt(e)) ELSE IF op = "dec" THEN VSub(@, Amt(e))
+                                            ELSE Sel(VAdd(Amt(e), Held(p)), @)]
+               /\ shi' = [shi EXCEPT ![p] = IF op = "inc" THEN VAdd(@, Amt(e)) ELSE IF op = "dec" THEN VSub(@, Amt(e))
+                                            ELSE Sel(VAdd(Amt(e), Out(p)), @)]
                /\ br' = br0 /\ UNCHANGED <<taint, bad>>
           [] e.e = "p" /\ op = "levels" /\ e.p \in Sup ->
                LET p == e.p IN
-               IF e.v < 0 THEN Fail("C12.negative")
-               ELSE IF e.v + Out(p) < slo[p] /\ taint[p] THEN Fail("C12.leak_after_interrupted_transfer")
-               ELSE IF e.v + Out(p) < slo[p] \/ e.v + HeldBy(a, p) > shi[p] THEN Fail("C12.bounds")
+               IF VLtSome(Lv(e), Zero) THEN Fail("C12.negative")
+               ELSE IF VLtSome(VAdd(Lv(e), Out(p)), slo[p]) /\ taint[p] THEN Fail("C12.leak_after_interrupted_transfer")
+               ELSE IF VLtSome(VAdd(Lv(e), Out(p)), slo[p]) \/ VGtSome(VAdd(Lv(e), HeldBy(a, p)), shi[p]) THEN Fail("C12.bounds")
                ELSE br' = br0 /\ UNCHANGED <<slo, shi, taint, bad>>
           [] e.e = "fin" ->
                IF ~e.ok THEN UNCHANGED <<slo, shi, br, taint, bad>>
-               ELSE IF \E p \in Sup : Get(e.levels, p) < 0 THEN Fail("C12.negative")
-               ELSE IF \E p \in Sup : slo[p] = shi[p] /\ Get(e.levels, p) + Held(p) # slo[p]
-                    THEN (IF \E p \in Sup : taint[p] /\ slo[p] = shi[p] /\ Get(e.levels, p) + Held(p) # slo[p]
+               ELSE IF \E p \in Sup : VLtSome(GetV(e, p), Zero) THEN Fail("C12.negative")
+               ELSE IF \E p \in Sup : slo[p] = shi[p] /\ VAdd(GetV(e, p), Held(p)) # slo[p]
+                    THEN (IF \E p \in Sup : taint[p] /\ slo[p] = shi[p] /\ VAdd(GetV(e, p), Held(p)) # slo[p]
                           THEN Fail("C12.leak_after_interrupted_transfer") ELSE Fail("C12.leak_at_quiescence"))
-               ELSE IF \E i \in 1..Len(br) : br[i].ph = "acq" /\ br[i].p \in Sup /\ Get(e.levels, br[i].p) >= br[i].amt
+               ELSE IF \E i \in 1..Len(br) : br[i].ph = "acq" /\ br[i].p \in Sup /\ VGe(GetV(e, br[i].p), br[i].amt)
                     THEN Fail("C12.borrower_starved")
+               \* a claim is decided on entry: it cannot still be pending when nothing is left to run
+               ELSE IF \E i \in 1..Len(br) : br[i].ph = "acq" /\ br[i].claim THEN Fail("C12.claim_waited")
                ELSE UNCHANGED <<slo, shi, br, taint, bad>>
           [] OTHER -> br' = br0 /\ UNCHANGED <<slo, shi, taint, bad>>
 Spec == Init /\ [][Step]_vars
